@@ -18,6 +18,7 @@ mod c17;
 mod c20;
 mod c07;
 mod repo;
+mod runlog;
 
 fn main() {
     std::panic::set_hook(Box::new(|_| {}));
@@ -73,6 +74,7 @@ fn main() {
         "c07-worker" => c07::worker(rest),
         "c07-run" => c07::run(rest),
         "repo-record" => repo::record(rest),
+        "run-record" => runlog::record(rest),
         x => {
             eprintln!("unknown subcommand {}", x);
             std::process::exit(2);
